@@ -1528,4 +1528,73 @@ theorem time_nondecreasing_run2D (p : Par ℝ) (f : Flags) (hdt : 0 ≤ (mkCtx p
     r.time.toList.Pairwise (· ≤ ·) :=
   time_nondecreasing_2D p f hdt oc.start _ _ (hlen_run2D oc (dt p)) Frand cn r h
 
+
+/-! ### the object on 2D outputs and after asynchronous studies (run() as repaired: K6 + K7) -/
+
+open Snow.S2D in
+/-- **2D, any earlier history of the object**: after `run()` either `results` and the history accessors
+show the complete result of THIS run, or the run raised and every accessor raises – never partial data -/
+theorem complete_or_raise_obj_2D (p : Par ℝ) (f : Flags) (T0C : ℝ) (prof : List ℝ) (NtExp : ℕ) (Frand : ℝ)
+    (cn : Option ℝ) (o : SnowObj (Result ℝ) (Result ℝ)) :
+    let o' := o.runFixed (out2D (run p f T0C prof NtExp Frand cn))
+    (∃ r, run p f T0C prof NtExp Frand cn = .ok r ∧ o'.results = .ok (some r) ∧ o'.history = .ok (some r)) ∨
+    ((run p f T0C prof NtExp Frand cn = .error "ValueError" ∨ run p f T0C prof NtExp Frand cn = .error "IndexError") ∧
+      o'.results = .error "AssertionError" ∧ o'.history = .error "AssertionError") := by
+  intro o'
+  rcases complete_or_raise_2D p f T0C prof NtExp Frand cn with ⟨r, hr⟩ | hr | hr
+  · left
+    exact ⟨r, hr, by simp [o', hr, out2D, SnowObj.runFixed, SnowObj.results],
+      by simp [o', hr, out2D, SnowObj.runFixed, SnowObj.history]⟩
+  · right
+    exact ⟨Or.inl hr, by simp [o', hr, out2D, SnowObj.runFixed, SnowObj.results],
+      by simp [o', hr, out2D, SnowObj.runFixed, SnowObj.history]⟩
+  · right
+    exact ⟨Or.inr hr, by simp [o', hr, out2D, SnowObj.runFixed, SnowObj.results],
+      by simp [o', hr, out2D, SnowObj.runFixed, SnowObj.history]⟩
+
+/-- **asynchronous study that completed**: `results` is the table with one row per repetition and the
+history accessors return `None` (the repetitions ran in worker processes) – that is the complete result of
+such a study -/
+theorem study_async_ok {S H : Type} (o : SnowObj (List S) H) (reps : List (RunOut S H))
+    (he : asyncExc reps = none) :
+    (o.runStudyAsync reps).results = .ok (some (reps.filterMap (·.stats))) ∧
+      (o.runStudyAsync reps).history = .ok none := by
+  simp [SnowObj.runStudyAsync, SnowObj.results, SnowObj.history, he]
+
+/-- … with exactly `Nrep` rows when every repetition that returned handed back its row -/
+theorem study_async_rows {S H : Type} (reps : List (RunOut S H)) (hrows : ∀ r ∈ reps, r.stats.isSome) :
+    (reps.filterMap (·.stats)).length = reps.length := by
+  induction reps with
+  | nil => rfl
+  | cons r rs ih =>
+    have h1 := hrows r (by simp)
+    obtain ⟨s, hs⟩ := Option.isSome_iff_exists.mp h1
+    simp [List.filterMap_cons, hs, ih (fun x hx => hrows x (List.mem_cons_of_mem _ hx))]
+
+/-- **asynchronous study in which a repetition raised**: `run()` raises and every accessor raises – never
+a table with the failed seeds silently missing -/
+theorem study_async_raises {S H : Type} (o : SnowObj (List S) H) (reps : List (RunOut S H)) (e : String)
+    (he : asyncExc reps = some e) :
+    (o.runStudyAsync reps).results = .error "AssertionError" ∧
+      (o.runStudyAsync reps).history = .error "AssertionError" := by
+  simp [SnowObj.runStudyAsync, SnowObj.results, SnowObj.history, he]
+
+/-- a study raises iff some repetition raised -/
+theorem asyncExc_isSome_iff {S H : Type} (reps : List (RunOut S H)) :
+    (asyncExc reps).isSome ↔ ∃ r ∈ reps, r.exc.isSome := by
+  unfold asyncExc
+  constructor
+  · intro h
+    cases hf : reps.find? (fun r => r.exc.isSome) with
+    | none => rw [hf] at h; simp at h
+    | some r => exact ⟨r, List.mem_of_find?_eq_some hf, by simpa using List.find?_some hf⟩
+  · rintro ⟨r, hr, he⟩
+    cases hf : reps.find? (fun r => r.exc.isSome) with
+    | none =>
+      have := List.find?_eq_none.mp hf r hr
+      simp [he] at this
+    | some r' =>
+      have := List.find?_some hf
+      simpa using this
+
 end Snow.C13
